@@ -116,6 +116,8 @@ pub fn small_pool() -> Vec<V> {
         V::Dbl(1.5),
         V::Bool(true),
         V::s("aé"),
+        // a string that starts with a multi-byte character (byte-offset slicing inside unit, zone, pattern arguments)
+        V::s("°C"),
         V::Bytes(vec![97]),
         V::list(&[V::Int(1), V::Int(2)]),
         V::map(&[("a", V::Int(1))]),
@@ -542,7 +544,7 @@ pub fn replay_families(t: Tier) -> Vec<Family<'static>> {
 
 pub fn run(t: Tier) -> i32 {
     let mut rep = Report::new(ID, t, "exploration");
-    rep.rule = "ops: every unary/binary operator, index, `in`, ternary over all ordered pairs of a 53-value boundary pool in literal and bound forms; builtins: every name found in the repository's function/macro/type tables called as function and as method with every argument tuple of arity 0..2 over the pool, arity 3..N over a 12-value pool, and 8 macro shapes; tokens: every space-joined string of 1..N tokens over a 50-token alphabet (operators, brackets, keywords, identifiers, extreme literals, hostile lexemes); ladders: 24 nesting constructs (incl. left-nested chains of every binary operator class) at increasing depths, each rung in its own child process, in two build profiles and on 8 MiB and 2 MiB stacks. Oracle: outcome is a value, an error or a syntax error, never a panic, abort or hang. Non-trivial = the case got past the parser (tokens) / the rung produced a value (ladders) / every ops and builtins case; distinct by case index".to_string();
+    rep.rule = "ops: every unary/binary operator, index, `in`, ternary over all ordered pairs of a 53-value boundary pool in literal and bound forms; builtins: every name found in the repository's function/macro/type tables called as function and as method with every argument tuple of arity 0..2 over the pool, arity 3..N over a 13-value pool, and 8 macro shapes; tokens: every space-joined string of 1..N tokens over a 50-token alphabet (operators, brackets, keywords, identifiers, extreme literals, hostile lexemes); ladders: 24 nesting constructs (incl. left-nested chains of every binary operator class) at increasing depths, each rung in its own child process, in two build profiles and on 8 MiB and 2 MiB stacks. Oracle: outcome is a value, an error or a syntax error, never a panic, abort or hang. Non-trivial = the case got past the parser (tokens) / the rung produced a value (ladders) / every ops and builtins case; distinct by case index".to_string();
     let fams = replay_families(t);
     let n_ladder_bins = std::env::var("VERIF_DEV_BIN").map(|_| 2).unwrap_or(1);
     for f in fams {
